@@ -31,14 +31,13 @@ RECURSIVE Lstrip(_)
 Lstrip(s) == IF s # <<>> /\ IsWs(Head(s)) THEN Lstrip(Tail(s)) ELSE s
 RECURSIVE Rstrip(_)
 Rstrip(s) == IF s # <<>> /\ IsWs(s[Len(s)]) THEN Rstrip(SubSeq(s, 1, Len(s) - 1)) ELSE s
-\* runs of white space collapse: a run holding a line break is one line break, else one blank
+\* runs of white space collapse into ONE separator atom: which white space separates two words (blank, tab, one or
+\* several line breaks) is not part of the property, so the binding does not look at it either
 RECURSIVE Canon(_)
 Canon(s) == IF s = <<>> THEN <<>>
             ELSE IF ~IsWs(Head(s)) THEN <<Head(s)>> \o Canon(Tail(s))
             ELSE LET rest == Canon(Tail(s)) IN
-                 IF rest # <<>> /\ IsWs(Head(rest))
-                 THEN << (IF Head(s)[1] = "n" \/ Head(rest)[1] = "n" THEN <<"n", 0>> ELSE <<"s", 0>>) >> \o Tail(rest)
-                 ELSE <<Head(s)>> \o rest
+                 IF rest # <<>> /\ IsWs(Head(rest)) THEN rest ELSE << <<"s", 0>> >> \o rest
 PageText(p) == Canon(Rstrip(Lstrip(p)))
 
 \* flush_page(): the stripped page text is kept when it is not empty
